@@ -178,3 +178,64 @@ Print Assumptions C08_phase5_total.
 Print Assumptions C08_to_chomsky.
 Print Assumptions C08_to_chomsky_total.
 Print Assumptions C08_to_chomsky_needs_nonterminal_names.
+
+(* ================= C08, the fresh names =================
+   "every variable it introduces is distinct from all existing ones": the phases above take their fresh names from
+   `stream`; the names the implementation actually draws come from cfg_fresh_variable (Model/FreshName.v:
+   fresh_variable V hint, names are tokens = lists of character codes, len(V) of the Python set = length (dedup V),
+   'A'..'Z' = 165..190, '{}{}'.format(hint, index) = hint ++ digits index).  It always returns a name, and the name
+   is not in V; the same for dfa_algorithms.fresh_state (FreshName.fresh_state). *)
+From GT Require Import Model.Tokens Model.FreshName.
+From GT Require Proofs.FreshNameProofs.
+
+Theorem C08_fresh_variable_fresh : forall (V : list token) (hint A : token),
+  fresh_variable V hint = Some A -> ~ In A V.
+Proof. exact FreshNameProofs.fresh_variable_fresh. Qed.
+
+Theorem C08_fresh_variable_total : forall (V : list token) (hint : token), fresh_variable V hint <> None.
+Proof. exact FreshNameProofs.fresh_variable_total. Qed.
+
+Theorem C08_fresh_variable_result_shape : forall (V : list token) (hint A : token), fresh_variable V hint = Some A ->
+  A = hint \/ (exists c, 165 <= c <= 190 /\ A = [c]) \/ (exists i, A = hint ++ digits i).
+Proof. exact FreshNameProofs.fresh_variable_result_shape. Qed.
+
+(* which name: fewer than 26 variables - the hint if it is free, else the first free upper-case letter *)
+Theorem C08_fresh_variable_small_hint : forall (V : list token) (hint : token),
+  length (dedup V) < 26 -> ~ In hint V -> fresh_variable V hint = Some hint.
+Proof. exact FreshNameProofs.fresh_variable_small_hint. Qed.
+
+Theorem C08_fresh_variable_small_letter : forall (V : list token) (hint A : token),
+  length (dedup V) < 26 -> In hint V -> fresh_variable V hint = Some A ->
+  exists c, A = [c] /\ 165 <= c <= 190 /\ ~ In [c] V /\ forall d, 165 <= d < c -> In [d] V.
+Proof. exact FreshNameProofs.fresh_variable_small_letter. Qed.
+
+(* at least 26 variables - the first free name among hint, hint0, hint1, ... *)
+Theorem C08_fresh_variable_large_first : forall (V : list token) (hint A : token),
+  26 <= length (dedup V) -> fresh_variable V hint = Some A ->
+  (A = hint /\ ~ In hint V) \/
+  (exists i, A = hint ++ digits i /\ In hint V /\ ~ In A V /\ forall j, j < i -> In (hint ++ digits j) V).
+Proof. exact FreshNameProofs.fresh_variable_large_first. Qed.
+
+Theorem C08_digits_injective : forall m n : nat, digits m = digits n -> m = n.
+Proof. exact FreshNameProofs.digits_inj. Qed.
+
+Theorem C08_fresh_state_fresh : forall (Q : list token) (hint q : token), fresh_state Q hint = Some q -> ~ In q Q.
+Proof. exact FreshNameProofs.fresh_state_tok_fresh. Qed.
+
+Theorem C08_fresh_state_total : forall (Q : list token) (hint : token), fresh_state Q hint <> None.
+Proof. exact FreshNameProofs.fresh_state_tok_total. Qed.
+
+Theorem C08_fresh_state_shape : forall (Q : list token) (hint q : token), fresh_state Q hint = Some q ->
+  exists k, 1 <= k /\ q = hint ++ digits k /\ ~ In q Q /\ forall j, 1 <= j < k -> In (hint ++ digits j) Q.
+Proof. exact FreshNameProofs.fresh_state_tok_shape. Qed.
+
+Print Assumptions C08_fresh_variable_fresh.
+Print Assumptions C08_fresh_variable_total.
+Print Assumptions C08_fresh_variable_result_shape.
+Print Assumptions C08_fresh_variable_small_hint.
+Print Assumptions C08_fresh_variable_small_letter.
+Print Assumptions C08_fresh_variable_large_first.
+Print Assumptions C08_digits_injective.
+Print Assumptions C08_fresh_state_fresh.
+Print Assumptions C08_fresh_state_total.
+Print Assumptions C08_fresh_state_shape.
